@@ -228,15 +228,16 @@ class TX:
             return edge_cache[key]
         start = (0, False, None, "unset", None)      # block, dirty, pend, retkind, dirty_cause
         seen = set()
-        work = [start + ((),)]
+        work = [start + (None,)]                     # last component: block of the last assignment to _0
         witness = None
         dirty_err = False
+        errsites = set()                             # (kind, block): where a dirty error return gets its value
         unk_only = True
         prev = {}
         while work:
             st = work.pop()
-            b, dirty, pend, rk, cause, _ = st
-            key = (b, dirty, pend, rk)
+            b, dirty, pend, rk, cause, rkb = st
+            key = (b, dirty, pend, rk, rkb)
             if key in seen:
                 continue
             seen.add(key)
@@ -252,6 +253,7 @@ class TX:
                         rk = self._local_kind(fn, rv[1][1][0])
                     else:
                         rk = "unknown"
+                    rkb = b
             if w:
                 if pend:
                     dirty = dirty or pend[1] or pend[2]
@@ -275,6 +277,7 @@ class TX:
                         # the Ok outcome is irrelevant for dirty_err; record Err outcome now
                         if dirty_at_err:
                             dirty_err = True
+                            errsites.add(("tail", b, bool(dirty)))
                             if witness is None:
                                 witness = (b, cause or ("callee", b, unk))
                             if not (de and not dirty and unk):
@@ -290,12 +293,14 @@ class TX:
                     n = t[1].get("n") or ""
                     if n.endswith("FromResidual::from_residual") or "from_residual" in n:
                         rk = "Err"
+                        rkb = b
                     elif pend and (FORWARD.search(t[1].get("dn") or "") or FORWARD.search(n)) and t[2] and \
                             self._is_pending_result(fn, t[2][0], pend[0]):
                         # `pending_call(..).map_err(..)` returned as is: judge the pending call's Err outcome here
                         cb, wo, de, dbefore, unk = pend
                         if dbefore or de:
                             dirty_err = True
+                            errsites.add(("tail", cb, bool(dbefore)))
                             if witness is None:
                                 witness = (b, cause if dbefore else ("callee", cb, unk))
                             if not (de and not dbefore and unk):
@@ -305,12 +310,14 @@ class TX:
                         rk = "done"
                     else:
                         rk = "call"
+                        rkb = b
             if t[0] == "ret":
                 d = dirty
                 if pend:
                     d = d or pend[1] or pend[2]
                 if d and rk in ("Err", "call", "unknown", "unset"):
                     dirty_err = True
+                    errsites.add(("ret", rkb, True))
                     if witness is None:
                         witness = (b, cause)
                     unk_only = unk_only and bool(cause and cause[0] == "callee" and cause[-1])
@@ -345,9 +352,9 @@ class TX:
                         if wo and not dbefore:
                             ncause = ("callee-ok", cb, unk)
                         npend = None
-                work.append((tb, nd, npend, rk, ncause, ()))
+                work.append((tb, nd, npend, rk, ncause, rkb))
         return {"writes": True, "dirty_err": dirty_err, "unknown": None if not dirty_err else (self._unk(witness) if unk_only else None),
-                "witness": witness}
+                "witness": witness, "errsites": sorted(errsites, key=str)}
 
     def _is_pending_result(self, fn, op, call_block):
         bv = base_value(expr_operand(fn, op))
